@@ -47,10 +47,11 @@ var entries = []entry{
 
 // match is the documented precedence: exact host:port, then *:port, then host:*, then *:*.
 func match(table []entry, host, port string) *entry {
+	host = strings.Trim(host, "[]") // (an IPv6 literal is written in brackets in an entry; host is the bare address)
 	for _, pass := range []func(e entry) bool{
-		func(e entry) bool { return e.host == host && e.port == port },
+		func(e entry) bool { return strings.Trim(e.host, "[]") == host && e.port == port },
 		func(e entry) bool { return e.host == "*" && e.port == port },
-		func(e entry) bool { return e.host == host && e.port == "*" },
+		func(e entry) bool { return strings.Trim(e.host, "[]") == host && e.port == "*" },
 		func(e entry) bool { return e.host == "*" && e.port == "*" },
 	} {
 		for i := range table {
@@ -405,6 +406,7 @@ var historyTable = []entry{
 	{"h2", "q2", "origin.test", "8080"},
 	{"h3", "q3", "other.test", "8080"},
 	{"h4", "q4", "up.test", "8080"},
+	{"h6", "q6", "[2001:db8::6]", "80"}, // an origin named by an IPv6 literal
 }
 
 var historyRequests = []struct {
@@ -423,6 +425,7 @@ var historyRequests = []struct {
 	{"CONNECT origin.test:443 (upstream resets the connection)", "origin.test", "443", "origin.test:443", false, true, true, false},
 	// the same host name without a port under the other scheme: the implied port differs (443, no entry)
 	{"https://origin.test", "origin.test", "443", "origin.test", false, false, false, true},
+	{"[2001:db8::6]", "2001:db8::6", "80", "[2001:db8::6]", false, false, false, false},
 }
 
 func historyScenario(x *explore.X, n int) {
@@ -445,7 +448,7 @@ func historyScenario(x *explore.X, n int) {
 		return
 	}
 	hops := map[string]*world.Hop{}
-	for _, a := range []string{"up.test:8080", "origin.test:80", "origin.test:8080", "other.test:8080", "other.test:80"} {
+	for _, a := range []string{"up.test:8080", "origin.test:80", "origin.test:8080", "other.test:8080", "other.test:80", "[2001:db8::6]:80"} {
 		hops[a], _ = w.Hop(a, nil)
 	}
 	hops["origin.test:443"], _ = w.Hop("origin.test:443", &tls.Config{Certificates: []tls.Certificate{pki.Leaf([]string{"origin.test"}, -time.Hour, time.Hour)}})
@@ -577,7 +580,7 @@ func historyScenario(x *explore.X, n int) {
 
 func TestC06(t *testing.T) {
 	s := explore.NewSuite(t, "C06", "exploration",
-		"credential table = every subset of size <= 3 of 8 entries (exact host:port, *:port, host:*, *:*, other host, entries matching the upstream proxy) (93) x upstream(none, static URL with userinfo, static URL resolved through the table, PAC-selected) x target/kind(6: implicit/explicit port 80, CONNECT, inside MITM, other host) x client fields(12: Proxy-Authorization once/twice/nominated by Connection/mixed case, client Authorization Basic / Bearer / Digest / Negotiate / malformed Basic / lower-case scheme); deviation-bounded (D=2 quick) and full product table x upstream x target with client fields as the only bounded dimension (D=1 quick, unbounded thorough); every byte received by the origin, by the upstream proxy and inside the tunnel is searched for the base64 token of every credential, each occurrence must be where expectCreds allows, and expected credentials must be present; plus (concurrent-lookups, Engine T) the credentials matcher of one proxy asked by 2-3 connections at once about 4 targets (after 0-1 earlier lookups), credentials.go rebuilt with a scheduling point before every statement, every interleaving within 2 (quick) / 3 (thorough) preemptions: every lookup returns its own target's entry; plus (history) ONE proxy (with and without an upstream proxy whose credentials come from the table) and EVERY sequence of 2 (quick) / 4 (thorough) requests out of 8 (same host on two ports, another host on two ports, the client's own Authorization, a CONNECT through the upstream proxy, a CONNECT whose upstream connection is reset as soon as it is established, the same host name under https:// with the implied port 443): each request carries the credentials of its own target whatever was requested before")
+		"credential table = every subset of size <= 3 of 8 entries (exact host:port, *:port, host:*, *:*, other host, entries matching the upstream proxy) (93) x upstream(none, static URL with userinfo, static URL resolved through the table, PAC-selected) x target/kind(6: implicit/explicit port 80, CONNECT, inside MITM, other host) x client fields(12: Proxy-Authorization once/twice/nominated by Connection/mixed case, client Authorization Basic / Bearer / Digest / Negotiate / malformed Basic / lower-case scheme); deviation-bounded (D=2 quick) and full product table x upstream x target with client fields as the only bounded dimension (D=1 quick, unbounded thorough); every byte received by the origin, by the upstream proxy and inside the tunnel is searched for the base64 token of every credential, each occurrence must be where expectCreds allows, and expected credentials must be present; plus (concurrent-lookups, Engine T) the credentials matcher of one proxy asked by 2-3 connections at once about 4 targets (after 0-1 earlier lookups), credentials.go rebuilt with a scheduling point before every statement, every interleaving within 2 (quick) / 3 (thorough) preemptions: every lookup returns its own target's entry; plus (history) ONE proxy (with and without an upstream proxy whose credentials come from the table) and EVERY sequence of 2 (quick) / 4 (thorough) requests out of 9 (an origin named by an IPv6 literal with its own table entry, same host on two ports, another host on two ports, the client's own Authorization, a CONNECT through the upstream proxy, a CONNECT whose upstream connection is reset as soon as it is established, the same host name under https:// with the implied port 443): each request carries the credentials of its own target whatever was requested before")
 	s.Assume = []string{"secrets are searched in their Basic (base64) form and the harness terminates TLS at the scripted origin", "simnet owns every connection"}
 	s.Add(explore.Scenario{Name: "bounded", Remote: true, Tiers: []string{"quick"}, MaxDev: map[string]int{"quick": 2},
 		Run: func(x *explore.X) { world.Run(t, x, func() { scenario(x, false) }) }})
